@@ -2,8 +2,6 @@ package main
 
 import (
 	"crypto/elliptic"
-	"crypto/sha512"
-	"fmt"
 	"math/big"
 
 	"github.com/cloudflare/circl/oprf"
@@ -18,169 +16,19 @@ import (
 	"github.com/cloudflare/pat-go/tokens/type5"
 	"github.com/cloudflare/pat-go/util"
 
-	"verif/mc"
+	"verif/bx"
 	"verif/px"
 )
 
-// field is a length / count / tag field inside a seed message.
-type field struct {
-	Off, Width int
-}
-
-type seed struct {
-	Name   string
-	Msg    []byte
-	Fields []field
-}
-
-// target is one function that consumes peer bytes. run returns whether the input
-// was accepted (decoder true / nil error), used only for outcome classes.
 type target struct {
 	Name  string
 	Step  bool // protocol step (larger allocation bound) vs pure decoder
 	StrL  int  // cap on the length of the all-strings generator (0 = tier default); used where every string is accepted and the accepting path is expensive
 	Run   func(in []byte) bool
-	Seeds []seed
+	Seeds []bx.Seed
 }
 
-// basicIssuer adapts the typed issuers to the generic batch issuer interface,
-// exactly as the repository's own tests do.
-type issuer1 struct{ i *type1.BasicPrivateIssuer }
-
-func (w issuer1) Evaluate(req tokens.TokenRequest) ([]byte, error) {
-	r, ok := req.(*type1.BasicPrivateTokenRequest)
-	if !ok {
-		return nil, fmt.Errorf("wrong request type")
-	}
-	return w.i.Evaluate(r)
-}
-func (w issuer1) TokenKeyID() []byte { return w.i.TokenKeyID() }
-func (w issuer1) Type() uint16       { return w.i.Type() }
-
-type issuer2 struct{ i *type2.BasicPublicIssuer }
-
-func (w issuer2) Evaluate(req tokens.TokenRequest) ([]byte, error) {
-	r, ok := req.(*type2.BasicPublicTokenRequest)
-	if !ok {
-		return nil, fmt.Errorf("wrong request type")
-	}
-	return w.i.Evaluate(r)
-}
-func (w issuer2) TokenKeyID() []byte { return w.i.TokenKeyID() }
-func (w issuer2) Type() uint16       { return w.i.Type() }
-
-type world struct {
-	w1  *px.W1
-	w2  *px.W2
-	w3  *px.W3
-	w5  *px.W5
-	att *type3.RateLimitedAttester
-
-	st1 type1.BasicPrivateTokenRequestState
-	st2 type2.BasicPublicTokenRequestState
-	st3 type3.RateLimitedTokenRequestState
-	st5 type5.BatchedPrivateTokenRequestState
-
-	o1, o2, o3, o5 *px.Out
-	a3              px.T3Args
-	req3            type3.RateLimitedTokenRequest
-	batchReq        []byte
-	batchResp       []byte
-	bissuer         *batched.BasicBatchedIssuer
-	challenge       []byte
-	spki            []byte
-	ecKey           *ecdsa.PrivateKey
-	ecSig           []byte
-	ecDigest        []byte
-	edPub           ed25519.PublicKey
-	edSig           []byte
-	edMsg           []byte
-	inner           []byte
-}
-
-func must(err error) {
-	if err != nil {
-		panic(err)
-	}
-}
-
-func buildWorld(seedv int64) *world {
-	mc.Entropy("c03-world")
-	w := &world{}
-	chal := tokens.TokenChallenge{TokenType: 2, IssuerName: "issuer.example", RedemptionNonce: mc.Fill(seedv, "rn", 32), OriginInfo: []string{"a.example", "b.example"}}
-	w.challenge = chal.Marshal()
-	nonce := mc.Fill(seedv, "nonce", 32)
-
-	w.w1 = px.NewW1(0)
-	w.w2 = px.NewW2(0)
-	w.w5 = px.NewW5(0)
-	w.w3 = px.NewW3(1)
-	must(w.w3.Issuer.AddOrigin("origin.example"))
-	w.att = type3.NewRateLimitedAttester(px.NewMemCache())
-
-	var se *px.StageErr
-	if w.o1, se = w.w1.Flow(w.challenge, nonce, nil); se != nil {
-		panic(se)
-	}
-	if w.o2, se = w.w2.Flow(w.challenge, nonce, nil, nil); se != nil {
-		panic(se)
-	}
-	nonces := [][]byte{nonce, mc.Fill(seedv, "nonce2", 32), mc.Fill(seedv, "nonce3", 32)}
-	if w.o5, se = w.w5.Flow(w.challenge, nonces, nil); se != nil {
-		panic(se)
-	}
-	w.a3 = px.T3Args{Secret: mc.Fill(seedv, "secret", 48), Blind: mc.Fill(seedv, "blind", 48), Challenge: w.challenge, Nonce: nonce, Origin: "origin.example", AnonOrigin: mc.Fill(seedv, "anon", 32)}
-	if w.o3, se = w.w3.Flow(w.att, w.a3); se != nil {
-		panic(se)
-	}
-	if !w.req3.Unmarshal(w.o3.Request) {
-		panic("type3 request does not decode")
-	}
-	// live request states for the finalize targets
-	var err error
-	w.st1, err = w.w1.Create(w.challenge, nonce, nil)
-	must(err)
-	w.st2, err = w.w2.Create(w.challenge, nonce, nil, nil)
-	must(err)
-	w.st5, err = w.w5.Create(w.challenge, nonces, nil)
-	must(err)
-	w.st3, err = w.w3.Create(w.a3)
-	must(err)
-
-	// generic batch: one type-1 and one type-2 request
-	bc := batched.NewBasicClient()
-	br, err := bc.CreateTokenRequest([]tokens.TokenRequestWithDetails{w.st1.Request(), w.st2.Request()})
-	must(err)
-	w.batchReq = append([]byte{}, br.Marshal()...)
-	w.bissuer = batched.NewBasicBatchedIssuer(issuer1{w.w1.Issuer}, issuer2{w.w2.Issuer})
-	resp, err := w.bissuer.EvaluateBatch(br)
-	must(err)
-	w.batchResp = resp
-
-	w.spki = w.w2.PubBytes
-
-	w.ecKey, err = ecdsa.CreateKey(elliptic.P384(), mc.Fill(seedv, "eckey", 48))
-	must(err)
-	d := sha512.Sum384([]byte("c03 message"))
-	w.ecDigest = d[:]
-	w.ecSig, err = ecdsa.SignASN1(mc.NewStream(seedv, "ecsign"), w.ecKey, w.ecDigest)
-	must(err)
-
-	edPriv := ed25519.NewKeyFromSeed(mc.Fill(seedv, "edseed", 32))
-	w.edPub = edPriv.Public().(ed25519.PublicKey)
-	w.edMsg = []byte("c03 ed25519 message")
-	w.edSig = ed25519.Sign(edPriv, w.edMsg)
-
-	in := type3.VerifNewInner(w.w3.KeyID[0], mc.Fill(seedv, "innermsg", 256), type3.VerifPad("origin.example"))
-	w.inner = append([]byte{}, in.Marshal()...)
-	return w
-}
-
-func varintWidth(b []byte) int { return 1 << (b[0] >> 6) }
-
-func (w *world) targets() []target {
-	hdr := func(n int) []field { return []field{{0, 2}} }
-	_ = hdr
+func targets(w *bx.World) []target {
 	p384 := elliptic.P384()
 	var ts []target
 	add := func(t target) { ts = append(ts, t) }
@@ -188,30 +36,30 @@ func (w *world) targets() []target {
 	add(target{Name: "tokens.UnmarshalTokenChallenge", Run: func(in []byte) bool {
 		_, err := tokens.UnmarshalTokenChallenge(in)
 		return err == nil
-	}, Seeds: []seed{{"challenge", w.challenge, []field{{0, 2}, {2, 2}, {18, 1}, {51, 2}}}}})
+	}, Seeds: []bx.Seed{{"challenge", w.Challenge, []bx.Field{{0, 2}, {2, 2}, {18, 1}, {51, 2}}}}})
 
 	add(target{Name: "type1.UnmarshalPrivateToken+Verify", Step: true, Run: func(in []byte) bool {
 		t, err := type1.UnmarshalPrivateToken(in)
 		if err != nil {
 			return false
 		}
-		return w.w1.Issuer.Verify(t) == nil
-	}, Seeds: []seed{{"token1", w.o1.Tokens[0], []field{{0, 2}}}}})
+		return w.W1.Issuer.Verify(t) == nil
+	}, Seeds: []bx.Seed{{"token1", w.O1.Tokens[0], []bx.Field{{0, 2}}}}})
 	add(target{Name: "type5.UnmarshalBatchedPrivateToken+Verify", Step: true, Run: func(in []byte) bool {
 		t, err := type5.UnmarshalBatchedPrivateToken(in)
 		if err != nil {
 			return false
 		}
-		return w.w5.Issuer.Verify(t) == nil
-	}, Seeds: []seed{{"token5", w.o5.Tokens[0], []field{{0, 2}}}}})
+		return w.W5.Issuer.Verify(t) == nil
+	}, Seeds: []bx.Seed{{"token5", w.O5.Tokens[0], []bx.Field{{0, 2}}}}})
 	add(target{Name: "type2.UnmarshalToken", Run: func(in []byte) bool {
 		_, err := type2.UnmarshalToken(in)
 		return err == nil
-	}, Seeds: []seed{{"token2", w.o2.Tokens[0], []field{{0, 2}}}}})
+	}, Seeds: []bx.Seed{{"token2", w.O2.Tokens[0], []bx.Field{{0, 2}}}}})
 	add(target{Name: "type3.UnmarshalToken", Run: func(in []byte) bool {
 		_, err := type3.UnmarshalToken(in)
 		return err == nil
-	}, Seeds: []seed{{"token3", w.o3.Tokens[0], []field{{0, 2}}}}})
+	}, Seeds: []bx.Seed{{"token3", w.O3.Tokens[0], []bx.Field{{0, 2}}}}})
 
 	add(target{Name: "type1.Request.Unmarshal+Evaluate", Step: true, Run: func(in []byte) bool {
 		r := new(type1.BasicPrivateTokenRequest)
@@ -219,27 +67,27 @@ func (w *world) targets() []target {
 			return false
 		}
 		_ = r.Marshal()
-		_, err := w.w1.Issuer.Evaluate(r)
+		_, err := w.W1.Issuer.Evaluate(r)
 		return err == nil
-	}, Seeds: []seed{{"request1", w.o1.Request, []field{{0, 2}, {2, 1}}}}})
+	}, Seeds: []bx.Seed{{"request1", w.O1.Request, []bx.Field{{0, 2}, {2, 1}}}}})
 	add(target{Name: "type2.Request.Unmarshal+Evaluate", Step: true, Run: func(in []byte) bool {
 		r := new(type2.BasicPublicTokenRequest)
 		if !r.Unmarshal(in) {
 			return false
 		}
 		_ = r.Marshal()
-		_, err := w.w2.Issuer.Evaluate(r)
+		_, err := w.W2.Issuer.Evaluate(r)
 		return err == nil
-	}, Seeds: []seed{{"request2", w.o2.Request, []field{{0, 2}, {2, 1}}}}})
+	}, Seeds: []bx.Seed{{"request2", w.O2.Request, []bx.Field{{0, 2}, {2, 1}}}}})
 	add(target{Name: "type5.Request.Unmarshal+Evaluate", Step: true, Run: func(in []byte) bool {
 		r := new(type5.BatchedPrivateTokenRequest)
 		if !r.Unmarshal(in) {
 			return false
 		}
 		_ = r.Marshal()
-		_, err := w.w5.Issuer.Evaluate(r)
+		_, err := w.W5.Issuer.Evaluate(r)
 		return err == nil
-	}, Seeds: []seed{{"request5", w.o5.Request, []field{{0, 2}, {2, 1}, {3, varintWidth(w.o5.Request[3:])}}}}})
+	}, Seeds: []bx.Seed{{"request5", w.O5.Request, []bx.Field{{0, 2}, {2, 1}, {3, bx.VarintWidth(w.O5.Request[3:])}}}}})
 	add(target{Name: "type3.Request.Unmarshal+VerifyRequest", Step: true, Run: func(in []byte) bool {
 		r := new(type3.RateLimitedTokenRequest)
 		if !r.Unmarshal(in) {
@@ -247,12 +95,12 @@ func (w *world) targets() []target {
 		}
 		_ = r.Marshal()
 		att := type3.NewRateLimitedAttester(px.NewMemCache())
-		return att.VerifyRequest(*r, w.a3.Blind, w.o3.ClientKey, w.a3.AnonOrigin) == nil
-	}, Seeds: []seed{{"request3", w.o3.Request, []field{{0, 2}, {83, 2}}}}})
+		return att.VerifyRequest(*r, w.A3.Blind, w.O3.ClientKey, w.A3.AnonOrigin) == nil
+	}, Seeds: []bx.Seed{{"request3", w.O3.Request, []bx.Field{{0, 2}, {83, 2}}}}})
 	add(target{Name: "type3.Issuer.Evaluate", Step: true, Run: func(in []byte) bool {
-		_, _, err := w.w3.Issuer.Evaluate(in)
+		_, _, err := w.W3.Issuer.Evaluate(in)
 		return err == nil
-	}, Seeds: []seed{{"request3", w.o3.Request, []field{{0, 2}, {83, 2}}}}})
+	}, Seeds: []bx.Seed{{"request3", w.O3.Request, []bx.Field{{0, 2}, {83, 2}}}}})
 	add(target{Name: "type3.InnerTokenRequest.Unmarshal", Run: func(in []byte) bool {
 		r := new(type3.InnerTokenRequest)
 		ok := r.Unmarshal(in)
@@ -260,86 +108,86 @@ func (w *world) targets() []target {
 			_ = r.Marshal()
 		}
 		return ok
-	}, Seeds: []seed{{"inner", w.inner, []field{{0, 1}, {257, 2}}}}})
+	}, Seeds: []bx.Seed{{"inner", w.Inner, []bx.Field{{0, 1}, {257, 2}}}}})
 	add(target{Name: "type3.UnmarshalEncapKey", Run: func(in []byte) bool {
 		k, err := type3.UnmarshalEncapKey(in)
 		if err == nil {
 			_ = k.Marshal()
 		}
 		return err == nil
-	}, Seeds: []seed{{"encapkey", w.w3.NameKeyWire, []field{{0, 1}, {1, 2}, {35, 2}, {37, 2}}}}})
+	}, Seeds: []bx.Seed{{"encapkey", w.W3.NameKeyWire, []bx.Field{{0, 1}, {1, 2}, {35, 2}, {37, 2}}}}})
 
 	add(target{Name: "type1.FinalizeToken", Step: true, Run: func(in []byte) bool {
-		_, err := w.st1.FinalizeToken(in)
+		_, err := w.St1.FinalizeToken(in)
 		return err == nil
-	}, Seeds: []seed{{"response1", w.o1.Response, nil}}})
+	}, Seeds: []bx.Seed{{"response1", w.O1.Response, nil}}})
 	add(target{Name: "type2.FinalizeToken", Step: true, Run: func(in []byte) bool {
-		_, err := w.st2.FinalizeToken(in)
+		_, err := w.St2.FinalizeToken(in)
 		return err == nil
-	}, Seeds: []seed{{"response2", w.o2.Response, nil}}})
+	}, Seeds: []bx.Seed{{"response2", w.O2.Response, nil}}})
 	add(target{Name: "type3.FinalizeToken", Step: true, Run: func(in []byte) bool {
-		_, err := w.st3.FinalizeToken(in)
+		_, err := w.St3.FinalizeToken(in)
 		return err == nil
-	}, Seeds: []seed{{"response3", w.o3.Response, nil}}})
+	}, Seeds: []bx.Seed{{"response3", w.O3.Response, nil}}})
 	add(target{Name: "type5.FinalizeTokens", Step: true, Run: func(in []byte) bool {
-		_, err := w.st5.FinalizeTokens(in)
+		_, err := w.St5.FinalizeTokens(in)
 		return err == nil
-	}, Seeds: []seed{{"response5", w.o5.Response, []field{{0, varintWidth(w.o5.Response)}}}}})
+	}, Seeds: []bx.Seed{{"response5", w.O5.Response, []bx.Field{{0, bx.VarintWidth(w.O5.Response)}}}}})
 
-	bw := varintWidth(w.batchReq)
+	bw := bx.VarintWidth(w.BatchReq)
 	add(target{Name: "batched.Request.Unmarshal+EvaluateBatch", Step: true, Run: func(in []byte) bool {
 		r := new(batched.BatchedTokenRequest)
 		if !r.Unmarshal(in) {
 			return false
 		}
 		_ = r.Marshal()
-		_, err := w.bissuer.EvaluateBatch(r)
+		_, err := w.BIssuer.EvaluateBatch(r)
 		return err == nil
-	}, Seeds: []seed{{"batchrequest", w.batchReq, []field{{0, bw}, {bw, 2}, {bw + 52, 2}}}}})
-	rw := varintWidth(w.batchResp)
+	}, Seeds: []bx.Seed{{"batchrequest", w.BatchReq, []bx.Field{{0, bw}, {bw, 2}, {bw + 52, 2}}}}})
+	rw := bx.VarintWidth(w.BatchResp)
 	add(target{Name: "batched.UnmarshalBatchedTokenResponses", Run: func(in []byte) bool {
 		_, err := batched.UnmarshalBatchedTokenResponses(in)
 		return err == nil
-	}, Seeds: []seed{{"batchresponse", w.batchResp, []field{{0, rw}, {rw, 1}, {rw + 1, 2}, {rw + 3 + 145, 1}, {rw + 3 + 145 + 1, 2}}}}})
+	}, Seeds: []bx.Seed{{"batchresponse", w.BatchResp, []bx.Field{{0, rw}, {rw, 1}, {rw + 1, 2}, {rw + 3 + 145, 1}, {rw + 3 + 145 + 1, 2}}}}})
 
 	newAtt := func() *type3.RateLimitedAttester {
 		c := px.NewMemCache()
 		a := type3.NewRateLimitedAttester(c)
-		_ = a.VerifyRequest(w.req3, w.a3.Blind, w.o3.ClientKey, w.a3.AnonOrigin)
+		_ = a.VerifyRequest(w.Req3, w.A3.Blind, w.O3.ClientKey, w.A3.AnonOrigin)
 		return a
 	}
 	add(target{Name: "type3.VerifyRequest(blind=bytes)", Step: true, StrL: 3, Run: func(in []byte) bool {
-		return type3.NewRateLimitedAttester(px.NewMemCache()).VerifyRequest(w.req3, in, w.o3.ClientKey, w.a3.AnonOrigin) == nil
-	}, Seeds: []seed{{"blind", w.a3.Blind, nil}}})
+		return type3.NewRateLimitedAttester(px.NewMemCache()).VerifyRequest(w.Req3, in, w.O3.ClientKey, w.A3.AnonOrigin) == nil
+	}, Seeds: []bx.Seed{{"blind", w.A3.Blind, nil}}})
 	add(target{Name: "type3.VerifyRequest(clientKey=bytes)", Step: true, Run: func(in []byte) bool {
-		return type3.NewRateLimitedAttester(px.NewMemCache()).VerifyRequest(w.req3, w.a3.Blind, in, w.a3.AnonOrigin) == nil
-	}, Seeds: []seed{{"clientkey", w.o3.ClientKey, nil}}})
+		return type3.NewRateLimitedAttester(px.NewMemCache()).VerifyRequest(w.Req3, w.A3.Blind, in, w.A3.AnonOrigin) == nil
+	}, Seeds: []bx.Seed{{"clientkey", w.O3.ClientKey, nil}}})
 	add(target{Name: "type3.VerifyRequest(signature=bytes)", Step: true, Run: func(in []byte) bool {
-		r := w.req3
+		r := w.Req3
 		r.Signature = in
-		return type3.NewRateLimitedAttester(px.NewMemCache()).VerifyRequest(r, w.a3.Blind, w.o3.ClientKey, w.a3.AnonOrigin) == nil
-	}, Seeds: []seed{{"signature", w.req3.Signature, nil}}})
+		return type3.NewRateLimitedAttester(px.NewMemCache()).VerifyRequest(r, w.A3.Blind, w.O3.ClientKey, w.A3.AnonOrigin) == nil
+	}, Seeds: []bx.Seed{{"signature", w.Req3.Signature, nil}}})
 	add(target{Name: "type3.VerifyRequest(requestKey=bytes)", Step: true, StrL: 3, Run: func(in []byte) bool {
-		r := w.req3
+		r := w.Req3
 		r.RequestKey = in
-		return type3.NewRateLimitedAttester(px.NewMemCache()).VerifyRequest(r, w.a3.Blind, w.o3.ClientKey, w.a3.AnonOrigin) == nil
-	}, Seeds: []seed{{"requestkey", w.req3.RequestKey, nil}}})
+		return type3.NewRateLimitedAttester(px.NewMemCache()).VerifyRequest(r, w.A3.Blind, w.O3.ClientKey, w.A3.AnonOrigin) == nil
+	}, Seeds: []bx.Seed{{"requestkey", w.Req3.RequestKey, nil}}})
 	add(target{Name: "type3.FinalizeIndex(clientKey=bytes)", Step: true, Run: func(in []byte) bool {
-		_, err := newAtt().FinalizeIndex(in, w.a3.Blind, w.o3.BlindedReqKey, w.a3.AnonOrigin)
+		_, err := newAtt().FinalizeIndex(in, w.A3.Blind, w.O3.BlindedReqKey, w.A3.AnonOrigin)
 		return err == nil
-	}, Seeds: []seed{{"clientkey", w.o3.ClientKey, nil}}})
+	}, Seeds: []bx.Seed{{"clientkey", w.O3.ClientKey, nil}}})
 	add(target{Name: "type3.FinalizeIndex(blind=bytes)", Step: true, StrL: 3, Run: func(in []byte) bool {
-		_, err := newAtt().FinalizeIndex(w.o3.ClientKey, in, w.o3.BlindedReqKey, w.a3.AnonOrigin)
+		_, err := newAtt().FinalizeIndex(w.O3.ClientKey, in, w.O3.BlindedReqKey, w.A3.AnonOrigin)
 		return err == nil
-	}, Seeds: []seed{{"blind", w.a3.Blind, nil}}})
+	}, Seeds: []bx.Seed{{"blind", w.A3.Blind, nil}}})
 	add(target{Name: "type3.FinalizeIndex(blindedRequestKey=bytes)", Step: true, Run: func(in []byte) bool {
-		_, err := newAtt().FinalizeIndex(w.o3.ClientKey, w.a3.Blind, in, w.a3.AnonOrigin)
+		_, err := newAtt().FinalizeIndex(w.O3.ClientKey, w.A3.Blind, in, w.A3.AnonOrigin)
 		return err == nil
-	}, Seeds: []seed{{"blindedreqkey", w.o3.BlindedReqKey, nil}}})
+	}, Seeds: []bx.Seed{{"blindedreqkey", w.O3.BlindedReqKey, nil}}})
 	add(target{Name: "type3.FinalizeIndex(anonOrigin=bytes)", Step: true, StrL: 2, Run: func(in []byte) bool {
-		_, err := newAtt().FinalizeIndex(w.o3.ClientKey, w.a3.Blind, w.o3.BlindedReqKey, in)
+		_, err := newAtt().FinalizeIndex(w.O3.ClientKey, w.A3.Blind, w.O3.BlindedReqKey, in)
 		return err == nil
-	}, Seeds: []seed{{"anon", w.a3.AnonOrigin, nil}}})
+	}, Seeds: []bx.Seed{{"anon", w.A3.AnonOrigin, nil}}})
 
 	add(target{Name: "quicwire.Consume*", Run: func(in []byte) bool {
 		_, n1 := quicwire.ConsumeVarint(in)
@@ -349,51 +197,51 @@ func (w *world) targets() []target {
 		_, n5 := quicwire.ConsumeUint32(in)
 		_, n6 := quicwire.ConsumeUint64(in)
 		return n1 >= 0 && n2 >= 0 && n3 >= 0 && n4 >= 0 && n5 >= 0 && n6 >= 0
-	}, Seeds: []seed{{"varintbytes", quicwire.AppendVarintBytes(nil, w.challenge), []field{{0, 2}}}}})
+	}, Seeds: []bx.Seed{{"varintbytes", quicwire.AppendVarintBytes(nil, w.Challenge), []bx.Field{{0, 2}}}}})
 
 	add(target{Name: "util.UnmarshalTokenKey", Run: func(in []byte) bool {
 		_, err := util.UnmarshalTokenKey(in)
 		return err == nil
-	}, Seeds: []seed{{"spki", w.spki, []field{{1, 3}, {5, 1}, {72, 3}}}}})
+	}, Seeds: []bx.Seed{{"spki", w.SPKI, []bx.Field{{1, 3}, {5, 1}, {72, 3}}}}})
 
 	add(target{Name: "ecdsa.VerifyASN1", Step: true, Run: func(in []byte) bool {
-		return ecdsa.VerifyASN1(&w.ecKey.PublicKey, w.ecDigest, in)
-	}, Seeds: []seed{{"ecdsa-der", w.ecSig, []field{{1, 1}, {3, 1}}}}})
+		return ecdsa.VerifyASN1(&w.EcKey.PublicKey, w.EcDigest, in)
+	}, Seeds: []bx.Seed{{"ecdsa-der", w.EcSig, []bx.Field{{1, 1}, {3, 1}}}}})
 	add(target{Name: "ecdsa.Verify(r||s=bytes)", Step: true, Run: func(in []byte) bool {
 		h := len(in) / 2
 		r := new(big.Int).SetBytes(in[:h])
 		s := new(big.Int).SetBytes(in[h:])
-		return ecdsa.Verify(&w.ecKey.PublicKey, w.ecDigest, r, s)
-	}, Seeds: []seed{{"ecdsa-raw", w.req3.Signature, nil}}})
+		return ecdsa.Verify(&w.EcKey.PublicKey, w.EcDigest, r, s)
+	}, Seeds: []bx.Seed{{"ecdsa-raw", w.Req3.Signature, nil}}})
 	add(target{Name: "ecdsa.Verify(digest=bytes)", Step: true, Run: func(in []byte) bool {
-		return ecdsa.VerifyASN1(&w.ecKey.PublicKey, in, w.ecSig)
-	}, Seeds: []seed{{"digest", w.ecDigest, nil}}})
+		return ecdsa.VerifyASN1(&w.EcKey.PublicKey, in, w.EcSig)
+	}, Seeds: []bx.Seed{{"digest", w.EcDigest, nil}}})
 	_ = p384
 
 	add(target{Name: "ed25519.Verify(sig=bytes)", Step: true, Run: func(in []byte) bool {
-		return ed25519.Verify(w.edPub, w.edMsg, in)
-	}, Seeds: []seed{{"ed-sig", w.edSig, nil}}})
+		return ed25519.Verify(w.EdPub, w.EdMsg, in)
+	}, Seeds: []bx.Seed{{"ed-sig", w.EdSig, nil}}})
 	add(target{Name: "ed25519.Verify(key32||msg=bytes)", Step: true, Run: func(in []byte) bool {
 		if len(in) < 32 {
 			return false // a key that is not 32 bytes panics by contract (like the standard library); out of scope
 		}
-		return ed25519.Verify(ed25519.PublicKey(in[:32]), in[32:], w.edSig)
-	}, Seeds: []seed{{"ed-key-msg", append(append([]byte{}, w.edPub...), w.edMsg...), nil}}})
+		return ed25519.Verify(ed25519.PublicKey(in[:32]), in[32:], w.EdSig)
+	}, Seeds: []bx.Seed{{"ed-key-msg", append(append([]byte{}, w.EdPub...), w.EdMsg...), nil}}})
 	add(target{Name: "ed25519.BlindPublicKeyWithContext(key=bytes)", Step: true, Run: func(in []byte) bool {
-		bl := append([]byte(nil), w.a3.AnonOrigin...)
+		bl := append([]byte(nil), w.A3.AnonOrigin...)
 		_, err := ed25519.BlindPublicKeyWithContext(ed25519.PublicKey(in), bl[:32:32], []byte("ctx"))
 		return err == nil
-	}, Seeds: []seed{{"ed-key", w.edPub, nil}}})
+	}, Seeds: []bx.Seed{{"ed-key", w.EdPub, nil}}})
 	add(target{Name: "ed25519.UnblindPublicKeyWithContext(key=bytes)", Step: true, Run: func(in []byte) bool {
-		bl := append([]byte(nil), w.a3.AnonOrigin...)
+		bl := append([]byte(nil), w.A3.AnonOrigin...)
 		_, err := ed25519.UnblindPublicKeyWithContext(ed25519.PublicKey(in), bl[:32:32], []byte("ctx"))
 		return err == nil
-	}, Seeds: []seed{{"ed-key", w.edPub, nil}}})
+	}, Seeds: []bx.Seed{{"ed-key", w.EdPub, nil}}})
 	add(target{Name: "ed25519.BlindPublicKeyWithContext(blind,ctx=bytes)", Step: true, StrL: 3, Run: func(in []byte) bool {
 		h := len(in) / 2
-		_, err := ed25519.BlindPublicKeyWithContext(w.edPub, in[:h:h], in[h:])
+		_, err := ed25519.BlindPublicKeyWithContext(w.EdPub, in[:h:h], in[h:])
 		return err == nil
-	}, Seeds: []seed{{"ed-blind-ctx", append(append([]byte{}, w.a3.AnonOrigin...), []byte("context string, 32 bytes long ..")...), nil}}})
+	}, Seeds: []bx.Seed{{"ed-blind-ctx", append(append([]byte{}, w.A3.AnonOrigin...), []byte("context string, 32 bytes long ..")...), nil}}})
 
 	_ = oprf.SuiteP384
 	return ts
